@@ -159,6 +159,13 @@ def body_for(beh: Dict[str, Any], req: Optional[Dict[str, Any]]) -> Tuple[bytes,
         junk = {"text": "hello", "number": "42", "string": '"oops"', "true": "true", "html": "<html>502</html>"}[kind.split(":")[1]]
         raw = ("event: message\ndata: " + json.dumps(note1) + "\n\nevent: message\ndata: " + junk + "\n\n").encode("utf-8")
         return raw, [note1]
+    elif kind.startswith("sse_note_junk_response:"):
+        # a notification, a complete but broken message event (truncated JSON, plain text), then the response: one bad
+        # event is one bad event - what follows it in the body is still the server's
+        junk = {"text": "hello", "truncated": json.dumps(note2)[:17], "number": "42"}[kind.split(":")[1]]
+        raw = ("event: message\ndata: " + json.dumps(note1) + "\n\nevent: message\ndata: " + junk + "\n\nevent: message\ndata: "
+               + json.dumps(resp, ensure_ascii=False) + "\n\n").encode("utf-8")
+        return raw, [note1, resp]
     elif kind == "json_batch_note_then_junk":
         return json.dumps([note1, {"foo": "not a message"}]).encode("utf-8"), [note1]
     elif kind == "sse_batch_in_one_event":
@@ -276,6 +283,8 @@ def single_behaviours() -> List[Dict[str, Any]]:
     for j_ in ("text", "number", "string", "true", "html"):
         out.append({"status": 200, "ctype": "sse", "body": "sse_note_then_nonmessage:" + j_})
     out.append({"status": 200, "ctype": "json", "body": "json_batch_note_then_junk"})
+    for j_ in ("text", "truncated"):
+        out.append({"status": 200, "ctype": "sse", "body": "sse_note_junk_response:" + j_})
     out.append({"status": 200, "ctype": "sse", "body": "sse_batch_in_one_event"})
     for body in ("response_list", "response_str", "response_zero", "response_emptyobj", "notes_then_response_list", "response_null",
                  "response_false"):
